@@ -1,6 +1,6 @@
 """property -> rule sets (DESIGN §4)"""
 from engine import ok, bad, assumed, floor
-import r_lock, r_panic, r_errd, r_order, r_misc, r_nowrap, r_desc, r_registry, r_effects, r_value, r_ctx, r_parse, r_num, r_slice, r_term, r_token, r_table, r_top, r_prec
+import r_lock, r_panic, r_errd, r_order, r_misc, r_nowrap, r_desc, r_registry, r_effects, r_value, r_ctx, r_parse, r_num, r_slice, r_term, r_token, r_table, r_top, r_prec, r_paths, r_clippy
 
 PROPS = {}
 
@@ -93,7 +93,17 @@ def c07(ctx):
     obs += r_order.rule_floors(em)
     # ERRD: every child / handler result is ?-consumed or returned at all
     obs += r_errd.rule_errd(em.bodies, rule='ERRD')
-    return obs, {'analysed': {'child_sites': n, 'evaluator_bodies': len(em.bodies)}}
+    npaths = 0
+    if ctx.tier == 'thorough':
+        pobs, npaths = r_paths.rule_paths(em)
+        dom_bad = any(o.status == 'violated' for o in obs if o.rule.startswith('ORDER'))
+        path_bad = any(o.status == 'violated' for o in pobs)
+        obs += pobs
+        if dom_bad != path_bad:
+            obs.append(bad('ORDER-PATHS', 'PATHS|agreement', 'the dominance-based verdict (%s) and the path-enumeration verdict (%s) disagree' % ('violated' if dom_bad else 'clean', 'violated' if path_bad else 'clean')))
+        else:
+            obs.append(ok('ORDER-PATHS', 'PATHS|agreement', 'dominance-based rules and path enumeration agree (%s)' % ('violated' if dom_bad else 'clean')))
+    return obs, {'analysed': {'child_sites': n, 'evaluator_bodies': len(em.bodies), 'paths_enumerated': npaths}}
 
 
 def exec_scope(ctx):
@@ -129,6 +139,8 @@ def c04(ctx):
     obs += r_errd.rule_errd(bodies, extra_callee_pred=fallible_conv)
     obs.append(floor('PANIC', 'builtin-handlers', len(hs), 20, 'the documented built-in operators and functions are closures escaping into handler types'))
     obs.append(floor('PANIC', 'exec-scope-bodies', len(bodies), 30, 'evaluator + handlers + accessors'))
+    if ctx.tier == 'thorough' and ctx.config == 'base':
+        obs += r_clippy.rule_clippy(ctx, bodies, sites)
     return obs, {'analysed': {'scope_bodies': len(bodies), 'builtin_handlers': len(hs), 'panic_sites': len(sites)}}
 
 
@@ -424,6 +436,8 @@ def c01(ctx):
     robs, nscc = r_term.rule_rec(tm, [b.id for b in bodies])
     obs += robs
     obs.append(floor('LOOP', 'loops', nloops, 10, 'tokenizer scanners, parser loops and renderer loops'))
+    if ctx.tier == 'thorough' and ctx.config == 'base':
+        obs += r_clippy.rule_clippy(ctx, bodies, sites)
     return obs, {'analysed': {'scope_bodies': len(bodies), 'panic_sites': len(sites), 'loops': nloops, 'recursive_sccs': nscc}}
 
 
